@@ -17,6 +17,7 @@ from checks import c08
 from simkit import ctx as rctx, kernel, lifecycle as lc, oracles, seams
 from simkit.driver import digest
 from simkit.oracles import LibRaised, lib_call
+from simkit.rng import sync_generators
 
 PROPERTY = "C15"
 LEVEL = "exploration"
@@ -30,12 +31,14 @@ def plan(tier):
 
 @st.composite
 def _scenario(draw, tier):
-    mode = draw(st.sampled_from(["arith", "arith", "pool", "timed", "timed", "pt_timed"]))
+    mode = draw(st.sampled_from(["arith", "arith", "pool", "timed", "timed", "pt_timed", "pt_advance"]))
     if mode == "arith":
         cfg = draw(lc.sampler_config(max_d=3))
         ops = []
         for _ in range(draw(st.integers(1, 5))):
-            if cfg["kind"] == "ensemble":
+            if draw(st.integers(0, 5)) == 0:
+                ops.append(["restart"])
+            elif cfg["kind"] == "ensemble":
                 ops.append(["advance", draw(st.one_of(st.sampled_from([0, 1, 2, 3]), st.integers(0, 25)))])
             elif draw(st.integers(0, 3)) == 0:
                 ops.append(["step"])
@@ -67,6 +70,21 @@ def _scenario(draw, tier):
         return dict(mode=mode, cfg=cfg, cost=cost, budget_s=cost * budget_evals, unit=unit,
                     pre_steps=draw(st.sampled_from([0, 0, 3])), jumps=sorted(jumps), stalls=stalls,
                     repeat=draw(st.sampled_from([1, 1, 2])))
+    if mode == "pt_advance":
+        n = draw(st.sampled_from([1, 2, 3]))
+        temps = [1.0]
+        for _ in range(n - 1):
+            temps.append(round(temps[-1] * draw(st.sampled_from([2.0, 3.0])), 3))
+        d = draw(st.integers(1, 2))
+        si = draw(st.sampled_from([1, 1, 2, 3, 10]))
+        cyc = draw(st.one_of(st.sampled_from([0, 1, 49, 50, 51, 52, 75, 99, 100, 101, 123]), st.integers(0, 130)))
+        nsteps = cyc * si + draw(st.integers(0, si - 1))
+        sc = dict(chain=draw(st.sampled_from(["gibbs", "gibbs", "metropolis"])), n=n, d=d, target=dict(kind="gauss", d=d), temps=temps,
+                  bounded=False, same_start=draw(st.booleans()), seed=draw(st.integers(0, 2 ** 32 - 1)), display=draw(st.booleans()),
+                  ops=[["advance", nsteps, si]] * draw(st.sampled_from([1, 1, 2])), snap=False, scheds=[], eval_cost=1e-4, hmc_steps=2,
+                  pca_update=7, shutdown=True)
+        return dict(mode=mode, pt=sc, sched=dict(seed=draw(st.integers(0, 2 ** 31 - 1)), stall_p=0.0, long_lat_p=0.0, pipe_cap=None,
+                                                  speed_spread=draw(st.sampled_from([1.0, 4.0]))))
     # pt_timed
     n = draw(st.sampled_from([1, 2, 3]))
     temps = [1.0]
@@ -114,6 +132,19 @@ def run_arith(sc, V, stats):
                 break
             n0 = h.length()
             stats["op_" + op[0]] += 1
+            if op[0] == "restart":
+                try:
+                    old_chain = lc.op_restart(h, "r%d" % stats["fault_crash_restart"])
+                except LibRaised:
+                    stats["restart_failed_history_ended"] += 1  # save/load failures are C09's business
+                    break
+                sync_generators(h.chain, old_chain)
+                stats["fault_crash_restart"] += 1
+                n1 = h.length()
+                if n1 != n0:
+                    _viol(V, "length.consistent", "%s: chain_length is %d after save/load, it was %d before" % (h.kind, n1, n0))
+                _lengths_consistent(V, h, "after save/load")
+                continue
             try:
                 if op[0] == "step":
                     lc.op_step(h)
@@ -137,6 +168,7 @@ def run_arith(sc, V, stats):
             if n1 - n0 != m * per:
                 _viol(V, "advance.exact", "%s: %r grew chain_length by %d, expected %d (from %d)" % (h.kind, op, n1 - n0, m * per, n0))
             _lengths_consistent(V, h, "after %r" % (op,))
+    lc.cleanup_scratch()
     return c
 
 
@@ -295,6 +327,18 @@ def execute(sc):
             c, clock = run_timed(sc, V, stats)
             sim_seconds = clock.now
             nontrivial = sc["budget_s"] > 0
+        elif mode == "pt_advance":
+            r = c08.run_pt(sc["pt"], sc["sched"], canonical=False)
+            c = rctx.get()
+            for v in r["violations"]:
+                if v["invariant"] in ("advance.equal", "liveness.deadlock", "liveness.stepcap", "op.raised", "worker.died", "return.complete"):
+                    _viol(V, "pt_advance." + v["invariant"], v["detail"])
+            stats["op_pt_advance"] += len(sc["pt"]["ops"])
+            if sc["pt"]["ops"][0][1] // sc["pt"]["ops"][0][2] > 50:
+                stats["probe_pt_advance_more_than_50_cycles"] += 1
+            sim_seconds = r["sim_seconds"]
+            ev = r["events_digest"]
+            nontrivial = sc["pt"]["ops"][0][1] > 0
         else:
             r = c08.run_pt(sc["pt"], sc["sched"], canonical=False)
             c = rctx.get()
